@@ -16,10 +16,10 @@ HARNESSES = [
   dict(COMMON, name="insert_nested2", entry="h_insert", encoded=["hwloc__insert_object_by_cpuset", "hwloc___insert_object_by_cpuset", "hwloc_obj_cmp_sets", "hwloc_type_cmp", "hwloc__insert_try_merge_group", "merge_insert_equal", "hwloc__object_cpusets_compare_first"],
        defines={"PRE": 2}, tiers={"quick": {"defines": {"NTYPES": 2}}, "thorough": {}}, object_bits=13, unwindset=seed_uw(**{"h_insert.0": 4, "h_insert.1": 17, "h_insert.2": 6, "insert_case.0": 18, "insert_case.1": 6, "insert_case.2": 8, "insert_case.3": 8}), bounds="Machine with PU0 and a Core{PU1,PU2} (pre-connect); new object of type Group(dont_merge 0/1)/Package (quick) + Core/L2 (thorough) with any of the 15 cpusets over 4 bits: the 75 cases are executed as concrete runs selected by symbolic inputs", cost=60),
 ]
-for seed in (1, 2):
-    HARNESSES.append(dict(COMMON, name="sets_s%d" % seed, entry="h_sets", defines={"SEED": seed}, encoded=["propagate_nodeset", "fixup_sets", "remove_unused_sets"], tiers={"quick": {}, "thorough": {}} if seed == 1 else {"thorough": {}},
+for seed in (1, 2, 5):
+    HARNESSES.append(dict(COMMON, name="sets_s%d" % seed, entry="h_sets", defines={"SEED": seed}, encoded=["propagate_nodeset", "fixup_sets", "remove_unused_sets"], tiers={"quick": {}, "thorough": {}} if seed in (1, 5) else {"thorough": {}},
                           bounds="seed S%d tree shape; the CONTENTS of all four sets of every object, the allowed sets and INCLUDE_DISALLOWED symbolic (assuming only what insertion guarantees)" % seed, cost=80))
-for seed in (1, 2, 3, 4):
+for seed in (1, 2, 3, 4, 5):
     HARNESSES.append(dict(COMMON, name="seed_wf_s%d" % seed, entry="h_seed_wf", defines={"SEED": seed}, encoded=["hwloc_discover", "hwloc__insert_object_by_cpuset", "hwloc_insert_object_by_parent", "propagate_nodeset", "fixup_sets", "remove_unused_sets", "hwloc__reconnect", "hwloc_connect_children", "hwloc_connect_levels", "hwloc_connect_special_levels", "hwloc_filter_levels_keep_structure", "propagate_total_memory", "hwloc_propagate_symmetric_subtree"],
                           tiers={"quick": {}, "thorough": {}}, bounds="seed S%d through the complete real discovery pipeline (concrete), every C01 clause re-checked by an independent checker" % seed, cost=30))
 # sibling-list surgery (used when levels are merged) is shared with C02
